@@ -125,7 +125,7 @@ most the head of it, which then leaves the suffix; consistency is kept -/
 theorem advance_live (cfg : Cfg) (w : Store) (c : Ctr) (cons : Int) (w' : Store) (c' : Ctr) (cons' : Int)
     (hf : c.frozen = false) (wf : CtrWF cfg c) (hnd : c.ops.Nodup) (h : advance cfg w c cons = .ok (w', c', cons')) :
     CtrWF cfg c' ∧ c'.ops = c.ops ∧ c'.cid = c.cid ∧
-    (c'.unfinished = c.unfinished ∨ ∃ r, c.unfinished = r :: c'.unfinished) ∧
+    (c'.unfinished = c.unfinished ∨ ∃ r, c.unfinished = r :: c'.unfinished ∧ w'.stOf r = completed) ∧
     StepsP (fun r t => r ∈ c.unfinished ∧ (t = running ∨ (t = completed ∧ r ∉ c'.unfinished))) w w' ∧
     (c'.completed = true → c.completed = false → c'.unfinished = []) := by
   unfold advance at h
@@ -186,11 +186,11 @@ theorem advance_live (cfg : Cfg) (w : Store) (c : Ctr) (cons : Int) (w' : Store)
             exact (List.nodup_cons.mp hsub).1
           have key : ∀ (c2 : Ctr), c2.ops = c1.ops → c2.curOpIdx = c1.curOpIdx + 1 → c2.cid = c1.cid → c2.cpu = c1.cpu →
               c2.pos = { c1.pos with i := c1.pos.i + 1, opDone := c1.pos.opDone + 1 } →
-              CtrWF cfg c2 ∧ c2.ops = c.ops ∧ c2.cid = c.cid ∧ (c2.unfinished = c.unfinished ∨ ∃ r, c.unfinished = r :: c2.unfinished) ∧
+              CtrWF cfg c2 ∧ c2.ops = c.ops ∧ c2.cid = c.cid ∧ (c2.unfinished = c.unfinished ∨ ∃ r, c.unfinished = r :: c2.unfinished ∧ w2.stOf r = completed) ∧
               StepsP (fun r t => r ∈ c.unfinished ∧ (t = running ∨ (t = completed ∧ r ∉ c2.unfinished))) w w2 := by
             intro c2 h1 h2 h3 h4 h5
             have hu2 : c2.unfinished = rest.map (·.1) := by rw [unfinished_eq, h1, h2, hops, hidx, hdrop]
-            refine ⟨⟨?_, ?_, ?_⟩, by rw [h1, hops], by rw [h3, hcid], Or.inr ⟨r, by rw [hU, hu2]⟩, ?_⟩
+            refine ⟨⟨?_, ?_, ?_⟩, by rw [h1, hops], by rw [h3, hcid], Or.inr ⟨r, by rw [hU, hu2], transition_self hw2 (transition_ok hw2).2.2.2⟩, ?_⟩
             · intro _
               simp only [h5, e3, remSegs, List.length_append]
               omega
@@ -239,7 +239,7 @@ def Busy (t : OpState) : Prop := t = assigned ∨ t = running ∨ t = suspending
 theorem tick_live (cfg : Cfg) (w : Store) (c : Ctr) (cons : Int) (w' : Store) (c' : Ctr) (cons' : Int)
     (wf : CtrWF cfg c) (hnd : c.ops.Nodup) (hfc : c.completed = false → c.frozen = false) (h : c.tick cfg w cons = .ok (w', c', cons')) :
     CtrWF cfg c' ∧ c'.ops = c.ops ∧ c'.cid = c.cid ∧
-    (c'.unfinished = c.unfinished ∨ ∃ r, c.unfinished = r :: c'.unfinished) ∧
+    (c'.unfinished = c.unfinished ∨ ∃ r, c.unfinished = r :: c'.unfinished ∧ w'.stOf r = completed) ∧
     StepsP (fun r t => r ∈ c.unfinished ∧ (t = running ∨ (t = completed ∧ r ∉ c'.unfinished))) w w' ∧
     (c'.completed = true → c.completed = false → c'.unfinished = []) := by
   unfold Ctr.tick at h
@@ -396,7 +396,7 @@ theorem tickAll_live (cfg : Cfg) : ∀ (l : List Ctr) (w : Store) (cons : Int) (
             exact hx.1
         have hb1 : BusyAll w1 cs := busyAll_frame (fun d hd => hbusy d (List.mem_cons_of_mem _ hd)) (fun o ho => hfoot o (fun hx => hdisj o hx ho))
         obtain ⟨i1, i2, i3, i4⟩ := ih w1 cons1 w2 cs2 cons2 hrest (fun d hd => hinv d (List.mem_cons_of_mem _ hd)) (List.nodup_append.mp hnd).2.1 hb1
-        have hsub1 : (ownOf c1).Sublist (ownOf c) := ownOf_sublist_of_tick t4 (fun hcc => by rw [(hcomp hcc).1]; exact hcc)
+        have hsub1 : (ownOf c1).Sublist (ownOf c) := ownOf_sublist_of_tick (t4.imp id (fun ⟨r, e, _⟩ => ⟨r, e⟩)) (fun hcc => by rw [(hcomp hcc).1]; exact hcc)
         refine ⟨?_, ?_, ?_, ?_⟩
         · intro d hd
           rcases List.mem_cons.mp hd with rfl | hd
@@ -413,7 +413,7 @@ theorem tickAll_live (cfg : Cfg) : ∀ (l : List Ctr) (w : Store) (cons : Int) (
               | false => rfl
               | true => rw [(hcomp hcc).1] at hn; rw [hcc] at hn; cases hn
             have hoc : o ∈ c.unfinished := by
-              rcases t4 with e | ⟨r, e⟩
+              rcases t4 with e | ⟨r, e, _⟩
               · rw [← e]; exact ho
               · rw [e]; exact List.mem_cons_of_mem _ ho
             have hown : o ∈ ownOf c := by simp only [ownOf, hnc, Bool.false_eq_true, ↓reduceIte]; exact hoc
